@@ -19,6 +19,7 @@ type FuncReport struct {
 	Externs   []string `json:"assumed_externs,omitempty"`
 	Inlined   []string `json:"inlined_helpers,omitempty"`
 	Notes     []string `json:"notes,omitempty"`
+	Axioms    []string `json:"assumed_axioms,omitempty"` // axioms of uninterpreted spec functions in the queries of this function (assumptions, not proved)
 	NumObl    int      `json:"obligations"`
 	Pos       string   `json:"pos,omitempty"`
 	obls      []*Oblig
@@ -105,7 +106,7 @@ func (e *Engine) verifyContract(ct *Contract) (rep *FuncReport) {
 				}
 			}
 			rep.obls = append(rep.obls, sub.obls...)
-			rep.Externs, rep.Inlined, rep.Notes = sub.Externs, sub.Inlined, sub.Notes
+			rep.Externs, rep.Inlined, rep.Notes, rep.Axioms = sub.Externs, sub.Inlined, sub.Notes, sub.Axioms
 		}
 		rep.Status = "generated"
 		rep.NumObl = len(rep.obls)
@@ -184,6 +185,7 @@ func (e *Engine) verifyContract(ct *Contract) (rep *FuncReport) {
 	rep.Externs = externList(c.externs)
 	rep.Inlined = sortedKeys(c.inlined)
 	rep.Notes = dedup(c.notes)
+	rep.Axioms = e.assumedAxioms(c.used)
 	return rep
 }
 
@@ -739,7 +741,25 @@ func (e *Engine) verifyLemma(lm *Lemma) *FuncReport {
 	rep.Status = "generated"
 	rep.obls = c.obls
 	rep.NumObl = len(c.obls)
+	rep.Axioms = e.assumedAxioms(c.used)
 	return rep
+}
+
+// assumedAxioms lists the axioms (spec file items `axiom ...`) of the spec functions reachable from the used ones:
+// they constrain uninterpreted functions (standard-library behaviour, arithmetic facts re-proved by lemmas) and are
+// assumptions of every obligation that mentions them.
+func (e *Engine) assumedAxioms(used map[string]bool) []string {
+	var out []string
+	for _, sf := range e.specClosure(used) {
+		for _, ax := range sf.Axioms {
+			t := strings.Join(strings.Fields(ax.Text), " ")
+			if len(t) > 260 {
+				t = t[:260] + "..."
+			}
+			out = append(out, fmt.Sprintf("%s (%s): %s", sf.Name, ax.Line, t))
+		}
+	}
+	return out
 }
 
 // lemmaAxiom renders a proved lemma as an axiom for use by others.
